@@ -22,6 +22,7 @@ type lookupEntry struct {
 type nodeEntry struct {
 	lock              sync.Mutex // TODO: Replace with key based locking.
 	refCount          int
+	removed           bool // the node is no longer part of the tree (unlink, rmdir, rename over it)
 	attr              fuseops.InodeAttributes
 	pathToBackingFile string // empty for directory
 }
